@@ -4,7 +4,7 @@
 # /repo itself and /verif/evidence are not touched, so this can run while other checks are running.
 id=$1; shift
 P=/verif/seeded/$id/patch.diff
-[ -f "$P" ] || P=/tmp/seed/$id/out/patch.diff
+[ -f "$P" ] || P=${SEEDBASE:-/tmp/seed}/$id/out/patch.diff
 [ -f "$P" ] || { echo "no patch for $id"; exit 2; }
 W=/tmp/try_seed/$id.$$
 mkdir -p /tmp/try_seed
